@@ -182,7 +182,11 @@ func buildSim(race bool) *build {
 	b.bin = filepath.Join(dir, "sim.test")
 	args := []string{"test", "-c", "-tags", buildTag, "-overlay", ovPath, "-o", b.bin}
 	if race {
-		args = append(args, "-race")
+		// The harness proper (package verif/sim) is not instrumented: it is
+		// serialised by the simulator's hidden hand-offs and the detector
+		// would report its bookkeeping. Its accesses to memory shared with
+		// the library go through verif/sim/touch, which is instrumented.
+		args = append(args, "-race", "-gcflags=verif/sim=-race=false")
 	}
 	args = append(args, "./sim")
 	cmd := exec.Command(goBin, args...)
@@ -410,6 +414,7 @@ type agg struct {
 	viol         map[string]*violRec // key property:kind(+detail)
 	notes        map[string]int
 	noteSeed     map[string]string
+	harnessRaces int
 	infra        []string
 	stalled      int
 	budget       int
@@ -720,6 +725,12 @@ func runSearch(id string, ps *propSpec, tier string, seed uint64, bud time.Durat
 		// a worker died while running spec: a crash of the process (fatal
 		// error / race report with halt_on_error). Attribute it.
 		kind, detail := classifyCrash(stderr)
+		if kind == "harness-race" {
+			a.mu.Lock()
+			a.harnessRaces++
+			a.mu.Unlock()
+			return
+		}
 		if kind == "" {
 			a.mu.Lock()
 			a.infra = append(a.infra, fmt.Sprintf("worker died on %s seed=%d run=%d: %s", spec.Family, spec.Seed, spec.Run, tail(stderr, 2000)))
@@ -818,7 +829,16 @@ func tail(s string, n int) string {
 func classifyCrash(stderr string) (string, map[string]string) {
 	switch {
 	case strings.Contains(stderr, "WARNING: DATA RACE"):
-		return "data-race", map[string]string{"at": raceSites(stderr)}
+		at := raceSites(stderr)
+		if at == "" {
+			// Neither access was made by the library or through the harness's
+			// application-side accessors (verif/sim/touch): two harness
+			// goroutines handed an object to each other through the simulator's
+			// hidden hand-offs and a dependency read it. Not a statement about
+			// the code under test.
+			return "harness-race", nil
+		}
+		return "data-race", map[string]string{"at": at}
 	case strings.Contains(stderr, "WATCHDOG"):
 		return "", nil
 	case strings.Contains(stderr, "fatal error: concurrent map"):
@@ -841,12 +861,14 @@ func raceSites(s string) string {
 				if f == "" {
 					break
 				}
-				if strings.HasPrefix(f, "github.com/jhump/grpctunnel.") {
+				if strings.HasPrefix(f, "github.com/jhump/grpctunnel.") || strings.HasPrefix(f, "verif/sim/touch.") {
 					fn := f
 					if k := strings.LastIndex(fn, "("); k > 0 {
 						fn = fn[:k]
 					}
-					sites = append(sites, strings.TrimPrefix(fn, "github.com/jhump/grpctunnel."))
+					fn = strings.TrimPrefix(fn, "github.com/jhump/grpctunnel.")
+					fn = strings.Replace(fn, "verif/sim/touch.", "application:", 1)
+					sites = append(sites, fn)
 					break
 				}
 			}
@@ -1090,6 +1112,7 @@ func writeEvidence(id string, ps *propSpec, tier string, seed uint64, a *agg, b 
 		"unknown_goroutine_spawns":  a.unknownS,
 		"inconclusive":              a.inconclusive,
 		"infrastructure_failures":   len(a.infra),
+		"harness_only_race_reports": a.harnessRaces,
 		"known_findings_hit":        kf,
 		"tree":                      b.tree,
 		"components": map[string]any{
